@@ -8,6 +8,7 @@
 import IcontractModel.Props.C01
 import IcontractModel.Props.C02
 import IcontractModel.Meta
+import IcontractModel.Lemmas.MetaFrame
 namespace Icontract
 
 /-- the documented integrators' loop over `__preconditions__` -/
@@ -20,7 +21,8 @@ def manualPost (isAsync : Bool) (o : Oracle) (kw : Kwargs) (posts : List Contrac
 
 theorem C18_manual_precondition_is_dnf (isAsync : Bool) (o : Oracle) (kw : Kwargs) (groups : List (List Contract)) :
     manualPre isAsync o kw groups = true ↔ dnfHolds isAsync o kw groups := by
-  sorry
+  unfold manualPre dnfHolds
+  simp only [Bool.or_eq_true, List.isEmpty_iff, List.any_eq_true, List.all_eq_true]
 
 /-- **Judging the preconditions by hand gives the wrapper's verdict** (sync): the body is entered iff
 the manual evaluation over the introspected groups succeeds. -/
@@ -29,14 +31,16 @@ theorem C18_sync_manual_precondition_verdict (ck : Checker) (o : Oracle) (call :
     (htot : ∀ g ∈ ck.pre, totalOn false o (resolved ck call) g)
     (hcap : ∃ old, (captureOldSync o (resolved ck call) [] ck.snaps).out = .ok old) :
     manualPre false o (resolved ck call) ck.pre = true ↔ bodyEntered (checkedSync ck o call).trace := by
-  sorry
+  rw [C18_manual_precondition_is_dnf]
+  exact ⟨C01_sync_body_if_pre_holds ck o call hvalid htot hcap, C01_sync_body_only_if_pre_holds ck o call⟩
 
 theorem C18_async_manual_precondition_verdict (ck : Checker) (o : Oracle) (call : Call)
     (hvalid : assertResolvedKwargsValid (!ck.posts.isEmpty) (resolved ck call) = none)
     (htot : ∀ g ∈ ck.pre, totalOn true o (resolved ck call) g)
     (hcap : ∃ old, (captureOldAsync o (resolved ck call) [] ck.snaps).out = .ok old) :
     manualPre true o (resolved ck call) ck.pre = true ↔ bodyEntered (checkedAsync ck o call).trace := by
-  sorry
+  rw [C18_manual_precondition_is_dnf]
+  exact ⟨C01_async_body_if_pre_holds ck o call hvalid htot hcap, C01_async_body_only_if_pre_holds ck o call⟩
 
 /-- **Judging the postconditions by hand gives the wrapper's verdict** (sync): once the body is reached
 and returns `v`, the call returns `v` iff the manual evaluation over the introspected postconditions
@@ -47,14 +51,33 @@ theorem C18_sync_manual_postcondition_verdict (ck : Checker) (o : Oracle) (call 
     (herr : ∀ c ∈ ck.posts, ∃ err, errorOf o ((kwAtBody ck (resolved ck call) old).set "result" (.obj v)) c = some err) :
     manualPost false o ((kwAtBody ck (resolved ck call) old).set "result" (.obj v)) ck.posts = true ↔
       (checkedSync ck o call).out = .ok v := by
-  sorry
+  constructor
+  · intro hm
+    apply C02_sync_returns_body_result ck o call old h v hb
+    intro c hc
+    exact List.all_eq_true.mp hm c hc
+  · intro hout
+    cases hff : firstFalsy false o ((kwAtBody ck (resolved ck call) old).set "result" (.obj v)) ck.posts with
+    | none =>
+      unfold firstFalsy at hff
+      unfold manualPost
+      rw [List.all_eq_true]
+      intro c hc
+      have := List.find?_eq_none.mp hff c hc
+      simpa using this
+    | some c =>
+      have hcm : c ∈ ck.posts := List.mem_of_find?_eq_some hff
+      obtain ⟨err, he⟩ := herr c hcm
+      have := C02_sync_first_falsy_postcondition_raises ck o call old h v hb htot c hff err he
+      rw [this] at hout
+      cases hout
 
 open Meta in
 /-- **Every class created through the metaclass is announced exactly once** to the registration hook ... -/
 theorem C18_hook_called_once_per_class (w w' : World) (k : ClsId) (bases : List ClsId)
     (ns : List (String × Member)) (h : defineClass w k bases ns true true = .ok w') :
     w'.hookCalls = w.hookCalls ++ [k] := by
-  sorry
+  simpa using defineClass_hookCalls w w' k bases ns true true h
 
 open Meta in
 /-- ... plain classes are not announced, and neither are decorations -/
@@ -63,6 +86,15 @@ theorem C18_hook_not_called_otherwise (w w' : World) (k : ClsId) (bases : List C
     (h : defineClass w k bases ns false true = .ok w') :
     w'.hookCalls = w.hookCalls ∧ (addPre w f c).hookCalls = w.hookCalls ∧ (addPost w f c).hookCalls = w.hookCalls ∧
     (addInvariant w k c on).hookCalls = w.hookCalls := by
-  sorry
+  refine ⟨by simpa using defineClass_hookCalls w w' k bases ns false true h, ?_, ?_, ?_⟩
+  · unfold addPre
+    simp only []
+    split <;> exact (ensureChecker_frame w f).hooks
+  · exact (ensureChecker_frame w f).hooks
+  · unfold addInvariant
+    split
+    · rfl
+    · rw [addInvariantChecks_hookCalls]
+      cases lookupInv w k .all <;> rfl
 
 end Icontract
